@@ -94,6 +94,8 @@ def elems_text(arr, ci):
 
 
 def run(ctx):
+    ctx.extra["gain_range_cases"] = gain_range_cases(ctx, lambda info: ctx.violation(
+        what="scaled sample is not gain*raw+offset within 4 ulps (gain / offset outside the requested dtype's own range)", site=KNOWN_SITE, when=KNOWN_WHEN, **info))
     import warnings
     from nitypes.waveform import AnalogWaveform, ComplexWaveform, LinearScaleMode, NO_SCALING
     from nitypes.complex import ComplexInt32DType
@@ -354,6 +356,65 @@ def run(ctx):
     ctx.evaluations += len(lines)
     for q, e in list(zip(lines, expect))[:2000:200]:
         ctx.sample({"request": q[:160], "response": e[:160]})
+
+
+# ---- a genuine defect recorded rather than repaired (DESIGN.md §4 / known_findings.json, id C11-F1) -----------------------------------
+# LinearScaleMode._transform_data evaluates `data * gain + offset` with gain / offset as Python floats.  For a 32-bit request NumPy
+# (NEP 50) first rounds the Python float to float32, so a gain or offset whose magnitude lies outside float32's own range becomes
+# inf / 0 although gain*raw+offset is an ordinary float32.  The repair would be to compute 32-bit requests in float64 and round once,
+# which changes the last bit of many float32 results (and the bit-exact model of C11): not a small, safe patch.
+KNOWN_SITE = "LinearScaleMode._transform_data"
+KNOWN_WHEN = "32-bit scaled dtype requested and |gain| or |offset| is not a finite non-zero float32, while gain*raw+offset is a normal float32"
+
+
+def gain_range_cases(ctx, report):
+    """32-bit requests whose gain / offset cannot be held by float32 but whose exact result can"""
+    import numpy as np
+    from nitypes.waveform import AnalogWaveform, ComplexWaveform, LinearScaleMode
+    f32max = Fraction(float(np.finfo(np.float32).max))
+    f32tiny = Fraction(float(np.finfo(np.float32).tiny))
+    cases = [(np.float32, [1e-3, -2e-3], 1e39, 0.0), (np.float32, [1e-4], -3e39, 5.0), (np.float64, [1e-3], 1e39, 0.0), (np.int16, [3], 1e-46, 0.0),
+             (np.float32, [1e9], 1e-46, 1.0), (np.float32, [1e-30], 1e39, 1e39), (np.complex64, [1e-3 + 2e-3j], 1e39, 0.0)]
+    n = 0
+    for raw_dt, vals, g, o in cases:
+        cplx = np.dtype(raw_dt).kind == "c"
+        cls = ComplexWaveform if cplx else AnalogWaveform
+        w = cls.from_array_1d(np.array(vals, raw_dt), raw_dt, scale_mode=LinearScaleMode(g, o))
+        req = np.complex64 if cplx else np.float32
+        import warnings
+        with np.errstate(all="ignore"), warnings.catch_warnings():
+            warnings.simplefilter("ignore")
+            r = outcome(lambda: w.get_scaled_data(req))
+        n += 1
+        ctx.case(("gain-range", str(np.dtype(raw_dt)), g, o))
+        if r[0] != "ok":
+            report(dict(raw_dtype=str(np.dtype(raw_dt)), gain=g, offset=o, observed=show(r)[:120], required="scaled data"))
+            continue
+        for k, z in enumerate(r[1].tolist()):
+            x = np.array(vals, raw_dt)[k]
+            parts = [(float(np.real(x)), True), (float(np.imag(x)), False)] if cplx else [(float(x), True)]
+            got = [np.real(z), np.imag(z)] if cplx else [z]
+            for (xv, is_real), gv in zip(parts, got):
+                conv = rne(Fraction(xv), 24)
+                exact = Fraction(g) * conv + (Fraction(o) if is_real else 0)
+                if not (f32tiny <= abs(exact) <= f32max / 4):
+                    continue
+                tol = 4 * ulp(max(abs(exact), abs(Fraction(o)) if is_real else 0), 24)
+                bad = not np.isfinite(gv) or abs(Fraction(float(gv)) - exact) > tol
+                if bad:
+                    report(dict(raw_dtype=str(np.dtype(raw_dt)), raw=str(x), gain=g, offset=o, requested=str(np.dtype(req)), observed=repr(gv),
+                                required=f"{float(exact)!r} (tolerance {float(tol)!r})"))
+    return n
+
+
+def _known_witness(ctx):
+    hits = []
+    gain_range_cases(ctx, hits.append)
+    return bool(hits)
+
+
+KNOWN_MATCH = {"C11-F1": lambda v: v.get("site") == KNOWN_SITE and v.get("when") == KNOWN_WHEN}
+KNOWN_WITNESS = {"C11-F1": _known_witness}
 
 
 def replay(doc):
